@@ -317,12 +317,91 @@ def fine_cases(draw):
     return {"uid": M.enc(uid), "salt": draw(st.sampled_from([None, "s1"])), "steps": steps, "jitter": draw(st.integers(0, 999))}
 
 
+def restart_cases():
+    """a ramp rolled out by restarts: every weight vector of the chain is served by ANOTHER interpreter process (its own hash
+    seed), several splitter fields with mixed-case names"""
+    for names, fam, salt in ((["user_id", "Tenant", "region"], [["10", "90"], ["20", "80"], ["35", "65"], ["50", "50"]], "ramp"),
+                             (["b", "a", "B", "A"], [["1", "1", "8"], ["2", "1", "7"], ["2", "3", "5"]], None)):
+        units = [{n: "%s-%d" % (n[:1], (i * 7 + j) % 50) for j, n in enumerate(names)} for i in range(150)]
+        yield {"restart": True, "names": names, "family": fam, "salt": salt, "units": [M.enc_inputs(u) for u in units], "seeds": ["1", "2", "77", "4242", "random"]}
+
+
+def judge_restart(case):
+    import json
+    import os
+    import subprocess
+    import sys
+    import tempfile
+
+    verif = os.path.dirname(os.path.dirname(os.path.dirname(os.path.abspath(__file__))))
+    fam = case["family"]
+    texts = [M.render(M.program("ramp", M.ret([(M.lit_str("g%d" % gi), w) for gi, w in enumerate(ws)]), salt=case["salt"], splitters=case["names"]))
+             for ws in fam]
+    tmp = tempfile.mkdtemp(prefix="pyab_c10_")
+    procs = []
+    try:
+        for vi, text in enumerate(texts):
+            path = os.path.join(tmp, "batch%d.json" % vi)
+            with open(path, "w", encoding="ascii") as f:
+                json.dump([{"text": text, "inputs": u} for u in case["units"]], f, ensure_ascii=True)
+            env = {k: v for k, v in os.environ.items() if not k.startswith("PYTHON")}
+            env.update({"PYTHONHASHSEED": case["seeds"][vi % len(case["seeds"])], "PYTHONDONTWRITEBYTECODE": "1",
+                        "PYAB_SRC": os.environ.get("PYAB_SRC", "/repo/src")})
+            env["PYTHONPATH"] = os.pathsep.join([env["PYAB_SRC"], verif])
+            procs.append(subprocess.Popen([sys.executable, "-B", os.path.join(verif, "pyabverif", "child_eval.py"), path], env=env,
+                                          stdout=subprocess.PIPE, stderr=subprocess.PIPE))
+        idx = []
+        for vi, p in enumerate(procs):
+            so, se = p.communicate()
+            if p.returncode != 0:
+                raise runner.HarnessError("child interpreter failed: %s" % se.decode("ascii", "replace")[-600:])
+            res = json.loads(so.decode("ascii"))["results"]
+            row = []
+            for r in res:
+                if r[0] != "group" or not str(r[1].get("v", "")).startswith("g"):
+                    return {"viol": ["ramp served by another process: unexpected outcome %r for weights %r" % (r, fam[vi])], "tags": ["restart"], "key": case}
+                row.append(int(r[1]["v"][1:]))
+            idx.append(row)
+    finally:
+        import shutil
+
+        shutil.rmtree(tmp, ignore_errors=True)
+    viol = []
+    moved = 0
+    for ui in range(len(case["units"])):
+        lo, hi = Fraction(0), Fraction(1)
+        for vi, ws in enumerate(fam):
+            pre = _prefix(ws)
+            g = idx[vi][ui]
+            if vi and g > idx[vi - 1][ui]:
+                viol.append("unit %r moved to a later group (%d -> %d) when %r -> %r was rolled out by a restart (another interpreter process), "
+                            "although no prefix share decreased" % (M.dec_inputs(case["units"][ui]), idx[vi - 1][ui], g, fam[vi - 1], ws))
+                break
+            if vi and g != idx[vi - 1][ui]:
+                moved += 1
+            lo, hi = max(lo, pre[g]), min(hi, pre[g + 1])
+        else:
+            if lo >= hi + Fraction(1, 10 ** 9):
+                viol.append("unit %r: no single position is consistent with its groups %r under %r served by different processes"
+                            % (M.dec_inputs(case["units"][ui]), [idx[vi][ui] for vi in range(len(fam))], fam))
+        if len(viol) >= 3:
+            break
+    return {"viol": viol[:3], "nontrivial": moved > 0, "tags": ["restart", "splitters:%d" % len(case["names"])], "key": [case["names"], fam, case["salt"]],
+            "sample": {"restart_family": fam, "splitters": case["names"], "hash_seeds": case["seeds"][:len(fam)]}}
+
+
 def judge_case(record):
     c = record["case"]
+    if c.get("restart"):
+        return judge_restart(c)["viol"]
     return (judge_fine(c) if "steps" in c else judge(c))["viol"]
 
 
 def run(ctx, rec):
+    if ctx.shard == 0:
+        runner.direct_run(ctx, rec, "ramp-rolled-out-by-restarts", restart_cases(), judge_restart)
+        if rec.violations:
+            return
     runner.hyp_run(ctx, rec, "families", families(), judge, ctx.n(400, 1500))
     if rec.violations:
         return
